@@ -62,6 +62,10 @@ func (m *ChannelSyncMsg) Decode(r io.Reader) error {
 
 // ID returns the channel's ID.
 func (m *ChannelSyncMsg) ID() channel.ID {
+	if m.CurrentTX.State == nil {
+		// A transaction without a state is a valid encoding.
+		return channel.Zero
+	}
 	return m.CurrentTX.ID
 }
 
